@@ -136,6 +136,33 @@ def gatedParamsOk (r : OpRow) : Bool :=
   !(isSent r && allCaps r) ||
   gatedParams.all fun g => !(r.op = s g.1 && s g.2.1 ∈ r.params) || s g.2.2 ∈ r.asserted
 
+/-- Values of enumerated parameter elements that exist only under a capability (RFC 6241 §8.6.4.1
+    `test-only`, §8.5 `rollback-on-error`): operation, element, value, capability. -/
+def gatedValues : List (String × String × String × String) :=
+  [("edit_config", "test-option", "test-only", ":validate:1.1"),
+   ("edit_config", "error-option", "rollback-on-error", ":rollback-on-error")]
+
+/-- C09 at wire level, for values: a capability-dependent VALUE is on the wire only if that capability
+    was asserted — however the caller spelled the argument that produced it. -/
+def gatedValuesOk (r : OpRow) : Bool :=
+  !(isSent r && allCaps r) ||
+  gatedValues.all fun g => !(r.op = s g.1 && (s g.2.1, s g.2.2.1) ∈ r.enumLeaves) || s g.2.2.2 ∈ r.asserted
+
+/-- The enumerations RFC 6241 §7.2 / RFC 6243 §3 fix for the enumerated parameter elements. -/
+def enumOf (elem : Str) : Option (List Str) :=
+  let t : List (String × List String) := [
+    ("default-operation", ["merge", "replace", "none"]),
+    ("test-option", ["test-then-set", "set", "test-only"]),
+    ("error-option", ["stop-on-error", "continue-on-error", "rollback-on-error"]),
+    ("with-defaults", ["report-all", "report-all-tagged", "trim", "explicit"])]
+  (t.find? (fun e => s e.1 = elem)).map fun e => e.2.map s
+
+/-- C07 at wire level: an enumerated parameter element on the wire carries a member of its enumeration
+    (for the standard operations of the default profile). -/
+def enumValuesOk (r : OpRow) : Bool :=
+  !isSent r || r.profile ≠ s "default" || !(r.op = s "edit_config" || r.op = s "get" || r.op = s "get_config") ||
+  r.enumLeaves.all fun kv => match enumOf kv.1 with | some vs => kv.2 ∈ vs | none => true
+
 /-- C09 with one required capability missing: refused locally, nothing on the wire. -/
 def refusalOk (r : OpRow) : Bool :=
   allCaps r || ((r.outcome = s "exc:MissingCapabilityError" || r.outcome = s "exc:WithDefaultsError" ||
